@@ -141,7 +141,7 @@ def pad_sweep(u, case):
                 for n in [0, 1, 2, 100, 4000, 4090, 4096, 4100, 8190, 8200, 12288, 16200, 16300]:
                     case(i, 0, '-', '{s"%s",[{%d,%d,},],%d,}' % ('41' * n, n % 65536, n, n % 256), 'pad-sweep-page')
                 continue
-            if not isinstance(el, Adt) and not isinstance(el, Array):
+            if (not isinstance(el, Adt) and not isinstance(el, Array)) or (isinstance(el, Adt) and el.d.name not in ('KZE2', 'KZ8', 'KZ6', 'KZ10', 'KZV', 'KZ11')):
                 # any other item type (ranges, tuples, ...): generated items behind strings of every length 0..15
                 for n in range(16):
                     items = ''.join(x + ',' for x in values_for(el, random.Random(n), 2))
@@ -239,6 +239,8 @@ def gen_cases(prop, u, seed, tier, probe=None):
         long_cases(u, case, quick)
         for (i, v, what) in big_values(u):
             case(i, 0, '-', v, 'big-' + what)
+        for nz in (0, 3, (1 << 32) + 1, (1 << 63) - 1, 1 << 63, (1 << 63) + 1, (1 << 64) - 2, (1 << 64) - 1):
+            cs.add('zstvec %d' % nz, kind='zstvec', n=nz, family='zero-sized-items-huge-length')
         for kind_, n in (('u8', 1 << 24), ('u8', (1 << 24) - 1), ('u8', (1 << 24) + 1), ('u64', 1 << 21), ('str', 1 << 24), ('str', (1 << 25) + 3)):
             cs.add('bigfile %s n%d %s -' % (kind_, n, 'dfull' if prop == 'C01' else 'deps'), kind='bigfile', loader='dfull', prefix=None, family='payload-16MiB')
         for i, t in enumerate(u.types):
@@ -302,6 +304,8 @@ def gen_cases(prop, u, seed, tier, probe=None):
                 case(i, 0, 'setw:8:2:%d' % m, v, 'hdr-major')
             for m in [0, 4, 7, 9, 16, 255]:
                 case(i, 0, 'setw:12:1:%d' % m, v, 'hdr-usize')
+            if i % 4 == 0:
+                cs.add('quietminor %d %s' % (i, v), kind='quietminor', ti=i, val=v, family='minor0-stderr-unwritable')
             # the same on a buffer that is not aligned (the header is read by copying: what it reports does not depend on
             # where the bytes are; only a *valid* header may be followed by an alignment error)
             for r in (1, 8, 31):
@@ -657,6 +661,9 @@ def gen_cases(prop, u, seed, tier, probe=None):
                 for k in [0, 5, 29, 40, 60, 70, 80, 90, 100, 120, 150, 200, 100000]:
                     cs.add('wfails %d k=%d,m=%s %s' % (k_, k, rng.choice(['-', '2']), v), kind='wfails', sk=k_, val=v, k=k, family='slice-fail-at-k')
                 cs.add('wfails %d k=-,ff=1 %s' % (k_, v), kind='wfails', sk=k_, val=v, k=None, family='slice-flush-fail')
+                if t.is_zc():
+                    for k in [0, 29, 45, 56, 60, 70, 90, 150]:
+                        cs.add('iterretry %d k=%d %s' % (k_, k, v), kind='iterretry', sk=k_, val=v, k=k, family='iter-retry-after-failure')
     elif prop == 'C14':
         plan = []
         for i, t in enumerate(u.types):
@@ -679,6 +686,8 @@ def gen_cases(prop, u, seed, tier, probe=None):
                 pat = rng.choice(['one', 'p3i', 'mix', 'r%d' % rng.randrange(100), 'p7b'])
                 kk = ('eof%d' % k) if rng.random() < 0.3 else str(k)
                 cs.add('rchunk %d %s %s %s' % (i, pat, kk, v), kind='rchunk', ti=i, val=v, k=k, total=n, family='fail-at-k')
+                # the source fails once (a time-out) and delivers the rest afterwards
+                cs.add('rchunk %d %s %d %s' % (i, rng.choice(['allt', 'p3t', 'onet', 'mixt']), k, v), kind='rchunk', ti=i, val=v, k=k, total=n, family='transient-fail-at-k')
         for (i, v, what) in big_values(u):
             if what == 'stream-above-2MiB' and quick: continue
             n = {'item-above-1MiB': 2 * 8 * 131073 + 8, 'two-blocks-above-64KiB': 230000, 'stream-above-2MiB': 2400000}[what]
